@@ -50,8 +50,14 @@ fn main() {
             }
             node::install_panic_counter(true);
             let job: run::Job = serde_json::from_slice(&std::fs::read(&args[2]).expect("job spec")).expect("job json");
-            let res = props::run_job(&job);
-            std::fs::write(&args[3], serde_json::to_vec(&res).unwrap()).expect("write result");
+            match std::panic::catch_unwind(|| props::run_job(&job)) {
+                Ok(res) => std::fs::write(&args[3], serde_json::to_vec(&res).unwrap()).expect("write result"),
+                Err(_) => {
+                    // the panic hook is silent in job mode (server panics are counted, not printed)
+                    eprintln!("harness panicked: {}", node::last_panic());
+                    std::process::exit(101);
+                }
+            }
         }
         "replay" => {
             node::install_panic_counter(false);
